@@ -95,7 +95,7 @@ def createTestItem (c0 : List Char) (more ts : List (List Char)) (code : Int) : 
 structure CramTextOK (expOk : List Char → Bool) (t : List Char) : Prop where
   no_nl : Cram.noNl t = true
   no_lead : commandLead t = none
-  no_exit : extractExitCode t = none
+  no_exit : isExitCodeForm t = false
   exp_ok : expOk t = true
 
 theorem generated_lines_cram (c0 : List Char) (more ts : List (List Char)) (code : Int) :
